@@ -296,6 +296,29 @@ macro_rules! streq {
 	}};
 }
 
+/// Component types only provide `== &str`.
+macro_rules! streq_ref {
+	($f:ident, $ty:expr, $texts:ident, $T:ty) => {{
+		let vals: Vec<&$T> = $texts.iter().map(|s| <$T>::new(s.as_str()).expect("spec-valid value")).collect();
+		let mut c = Capped { f: $f, seen: Default::default(), cap: 3 };
+		for i in 0..vals.len() {
+			for j in 0..vals.len() {
+				c.check();
+				let same_text = $texts[i] == $texts[j];
+				match guard(|| *vals[i] == $texts[j].as_str()) {
+					Err(m) => c.fail(&["C14"], &format!("{}.str_eq.panic", $ty), json!({"a": $texts[i], "s": $texts[j], "panic": m})),
+					Ok(a) => {
+						if a != same_text {
+							c.fail(&["C14"], &format!("{}.str_eq", $ty), json!({"a": $texts[i], "s": $texts[j], "observed": a, "expected": same_text}));
+						}
+					}
+				}
+			}
+		}
+		c.finish();
+	}};
+}
+
 macro_rules! simple {
 	($f:ident, $ty:expr, $texts:ident, $canon:ident, $T:ty, $TBuf:ty) => {{
 		let vals: Vec<&$T> = $texts.iter().map(|s| <$T>::new(s.as_str()).expect("spec-valid value")).collect();
@@ -397,18 +420,48 @@ pub fn run(case: &Value, f: &mut Fails) {
 	match ty {
 		"Scheme" => simple!(f, ty, texts, canon, uri::Scheme, uri::SchemeBuf),
 		"Port" => simple!(f, ty, texts, canon, uri::Port, uri::PortBuf),
-		"UAuthority" => simple!(f, ty, texts, canon, uri::Authority, uri::AuthorityBuf),
-		"UUserInfo" => simple!(f, ty, texts, canon, uri::UserInfo, uri::UserInfoBuf),
-		"UHost" => simple!(f, ty, texts, canon, uri::Host, uri::HostBuf),
+		"UAuthority" => {
+			simple!(f, ty, texts, canon, uri::Authority, uri::AuthorityBuf);
+			streq_ref!(f, ty, texts, uri::Authority);
+		}
+		"UUserInfo" => {
+			simple!(f, ty, texts, canon, uri::UserInfo, uri::UserInfoBuf);
+			streq_ref!(f, ty, texts, uri::UserInfo);
+		}
+		"UHost" => {
+			simple!(f, ty, texts, canon, uri::Host, uri::HostBuf);
+			streq_ref!(f, ty, texts, uri::Host);
+		}
 		"USegment" => simple!(f, ty, texts, canon, uri::Segment, uri::SegmentBuf),
-		"UQuery" => simple!(f, ty, texts, canon, uri::Query, uri::QueryBuf),
-		"UFragment" => simple!(f, ty, texts, canon, uri::Fragment, uri::FragmentBuf),
-		"IAuthority" => simple!(f, ty, texts, canon, iri::Authority, iri::AuthorityBuf),
-		"IUserInfo" => simple!(f, ty, texts, canon, iri::UserInfo, iri::UserInfoBuf),
-		"IHost" => simple!(f, ty, texts, canon, iri::Host, iri::HostBuf),
+		"UQuery" => {
+			simple!(f, ty, texts, canon, uri::Query, uri::QueryBuf);
+			streq_ref!(f, ty, texts, uri::Query);
+		}
+		"UFragment" => {
+			simple!(f, ty, texts, canon, uri::Fragment, uri::FragmentBuf);
+			streq_ref!(f, ty, texts, uri::Fragment);
+		}
+		"IAuthority" => {
+			simple!(f, ty, texts, canon, iri::Authority, iri::AuthorityBuf);
+			streq_ref!(f, ty, texts, iri::Authority);
+		}
+		"IUserInfo" => {
+			simple!(f, ty, texts, canon, iri::UserInfo, iri::UserInfoBuf);
+			streq_ref!(f, ty, texts, iri::UserInfo);
+		}
+		"IHost" => {
+			simple!(f, ty, texts, canon, iri::Host, iri::HostBuf);
+			streq_ref!(f, ty, texts, iri::Host);
+		}
 		"ISegment" => simple!(f, ty, texts, canon, iri::Segment, iri::SegmentBuf),
-		"IQuery" => simple!(f, ty, texts, canon, iri::Query, iri::QueryBuf),
-		"IFragment" => simple!(f, ty, texts, canon, iri::Fragment, iri::FragmentBuf),
+		"IQuery" => {
+			simple!(f, ty, texts, canon, iri::Query, iri::QueryBuf);
+			streq_ref!(f, ty, texts, iri::Query);
+		}
+		"IFragment" => {
+			simple!(f, ty, texts, canon, iri::Fragment, iri::FragmentBuf);
+			streq_ref!(f, ty, texts, iri::Fragment);
+		}
 		"UPath" => {
 			let vals: Vec<&uri::Path> = texts.iter().map(|s| uri::Path::new(s.as_str()).expect("valid")).collect();
 			group::<uri::Path>(f, ty, &vals, &texts, &canon);
